@@ -55,6 +55,70 @@ def _merge_components(e: ast.AST | None) -> list[ast.AST]:
     return [e] if e is not None else []
 
 
+def _builder_alias_loses(an: Analysis, rf: FunctionInfo, drf: Deps, call: ast.Call, bfn: FunctionInfo) -> list[ast.AST]:
+    """For a helper that assembles the type parameters of an alias value from the enclosing ones and the alias' own arguments:
+    the statements through which an alias binding would lose against an enclosing binding of the same name.  The helper's
+    parameters are classified by what the call passes (get_args(...) of the alias / the enclosing mapping); the returned
+    mapping must start from the enclosing bindings and take the alias' ones by overriding stores, or be a display / merge
+    whose last component is the alias' (judged by _merge_components)."""
+    a = bfn.node.args
+    pos = [p.arg for p in a.posonlyargs + a.args]
+    given: dict[str, ast.AST] = dict(zip(pos, call.args))
+    for k in call.keywords:
+        if k.arg is None:
+            raise AnalysisError(f"C05.13: cannot follow ** arguments into {bfn.short}")
+        given[k.arg] = k.value
+    alias_params = {p for p, v in given.items() if "call:typing.get_args" in drf.of(v) or any(isinstance(x, ast.Attribute) and x.attr == "__type_params__" for x in ast.walk(v))}
+    enclosing = {p for p, v in given.items() if p not in alias_params and "param:type_parameters" in drf.of(v)}
+    db = Deps(an.prog, bfn)
+    out: list[ast.AST] = []
+    rets = [r for r in bfn.own_nodes() if isinstance(r, ast.Return) and r.value is not None]
+    if not rets:
+        raise AnalysisError(f"C05.13: {bfn.short} returns nothing")
+
+    def from_alias(e: ast.AST) -> bool:
+        return any(f"param:{p}" in db.of(e) for p in alias_params)
+
+    def from_enclosing_only(e: ast.AST) -> bool:
+        return any(f"param:{p}" in db.of(e) for p in enclosing) and not from_alias(e)
+
+    for r in rets:
+        v = unwrap(r.value)
+        if not isinstance(v, ast.Name):
+            parts = _merge_components(db.inline(v))
+            if len(parts) > 1 and not from_alias(parts[-1]):
+                out.append(r)
+            continue
+        defs = [d_ for k_, d_ in db.defs(bfn, v.id) if k_ == "value"]
+        if len(defs) != 1:
+            raise AnalysisError(f"C05.13: the mapping returned by {bfn.short} has {len(defs)} definitions")
+        base = unwrap(defs[0])
+        parts = _merge_components(base)
+        if isinstance(base, ast.Call) and (is_name(base.func, "dict") or (isinstance(base.func, ast.Attribute) and base.func.attr == "copy")) and len(parts) == 1:
+            src = base.args[0] if base.args else (base.func.value if isinstance(base.func, ast.Attribute) else None)
+            starts_enclosing = src is not None and from_enclosing_only(src)
+            starts_alias = src is not None and from_alias(src)
+        elif isinstance(base, ast.Dict) and not base.keys:
+            starts_enclosing = starts_alias = False
+        else:
+            starts_enclosing = all(from_enclosing_only(p_) for p_ in parts)
+            starts_alias = any(from_alias(p_) for p_ in parts)
+            if len(parts) > 1 and starts_alias and not from_alias(parts[-1]):
+                out.append(defs[0])
+        # later writes
+        for n in bfn.own_nodes():
+            if isinstance(n, ast.Call) and isinstance(n.func, ast.Attribute) and is_name(n.func.value, v.id):
+                argv = [*n.args, *[k.value for k in n.keywords]]
+                if n.func.attr == "setdefault" and any(from_alias(x) for x in argv) and starts_enclosing:
+                    out.append(n)  # an enclosing binding of that name stays
+                elif n.func.attr == "update" and argv and all(from_enclosing_only(x) for x in argv) and starts_alias:
+                    out.append(n)  # the enclosing bindings overwrite the alias' ones
+            elif isinstance(n, ast.Assign) and any(isinstance(t, ast.Subscript) and is_name(t.value, v.id) for t in n.targets):
+                if from_enclosing_only(n.value) and starts_alias and not from_alias(n.targets[0].slice):  # type: ignore[union-attr]
+                    out.append(n)
+    return out
+
+
 def check(an: Analysis) -> None:
     global _PROG
     prog = an.prog
@@ -316,6 +380,12 @@ def check(an: Analysis) -> None:
             parts = _merge_components(drf.inline(tp))
             if len(parts) > 1 and "call:typing.get_args" not in drf.of(parts[-1]):
                 ob.fail(rf, c, "the bindings of the alias' own parameters do not win the merge with the enclosing type parameters: an enclosing parameter of the same name shadows the argument the alias was given (class Box[T] with `items: Many[int]` validates against Box's T)")
+            builder = unwrap(drf.inline(tp))
+            bfn = prog.functions.get(an.callee(rf, builder) or "") if isinstance(builder, ast.Call) else None
+            if bfn is not None and bfn.module is rf.module:
+                # the merge written step by step in a helper: `merged = dict(<enclosing>)`, then one store per alias parameter
+                for why in _builder_alias_loses(an, rf, drf, builder, bfn):
+                    ob.fail(bfn, why, "the bindings of the alias' own parameters do not win the merge with the enclosing type parameters (they are added with setdefault / underneath the enclosing ones): an enclosing parameter of the same name shadows the argument the alias was given (class Box[T] with `items: Many[int]` validates against Box's T)")
     if n_alias == 0:
         ob.missing(rf, None, "the resolution of parametrised type aliases (origin is a TypeAliasType) was not found")
 
